@@ -277,6 +277,25 @@ def run_(ctx, model):
         ops = ops[:10]
         truth = probe(out, ops, fields, tcount)
         desc = {'route': route, 'mode': mode, 'n': n_real, 'q': q, 'bs': lay.bs, 'writes': [(e[0], e[1], e[2], len(e[3])) for e in wl.events][:14]}
+        # K: Model/WriteOrder.shape - the kinds of the file operations in program order (append at the end / in-place patch
+        # at an offset): in `thorough` mode count and table are patched before the first footer array is appended
+        cur, kinds = 0, []
+        for o in wl.ops:
+            if o[0] != 'write':
+                kinds.append('T')
+            elif o[1] == cur:
+                kinds.append('A')
+                cur += len(o[2])
+            elif o[1] + len(o[2]) <= cur:
+                kinds.append(f'P{o[1]}')
+            else:
+                kinds.append(f'X{o[1]}')
+        n_arrays = spec.read_header(out)[0].n_arrays if hasattr(spec.read_header(out)[0], 'n_arrays') else len(spec.read_footer_arrays(out))
+        n_blocks = kinds.count('A') - 1 - n_arrays
+        ctx.stats['corr_requests'] += 1
+        want = model.ask(f"worder {1 if mode == 'thorough' else 0} {max(n_blocks, 0)} {n_arrays}")
+        if want != ' '.join(kinds):
+            ctx.corr_fail('Model.WriteOrder', f"worder {mode} blocks={n_blocks} arrays={n_arrays}", want[:200], ' '.join(kinds)[:200], desc)
         part = ctx.path('partial.sgz')
         states = list(crash_states(wl.events, rng, ctx.quick))
         if any(o[0] == 'truncate' for o in wl.ops):
